@@ -28,7 +28,7 @@ Fixpoint val_eqb (a b : val) : bool :=
   | VNil, VNil => true
   | VBool x, VBool y => Bool.eqb x y
   | VInt x, VInt y => x =? y
-  | VFloat x, VFloat y => x =? y
+  | VFloat x, VFloat y => (is_nan x && is_nan y) || (x =? y)   (* bit-exact, up to the payload of NaNs *)
   | VStr x, VStr y => bytes_eqb x y
   | VList x, VList y =>
       (fix go (x y : list val) : bool :=
@@ -41,3 +41,24 @@ Fixpoint val_eqb (a b : val) : bool :=
          | _, _ => false end) x y
   | _, _ => false
   end.
+
+(* multiset equality of lists (for observables whose order is the runtime's map iteration order) *)
+Fixpoint remove_first {A} (eqb : A -> A -> bool) (x : A) (l : list A) : option (list A) :=
+  match l with
+  | [] => None
+  | y :: t => if eqb x y then Some t else match remove_first eqb x t with Some t' => Some (y :: t') | None => None end
+  end.
+Fixpoint perm_eqb {A} (eqb : A -> A -> bool) (l1 l2 : list A) : bool :=
+  match l1 with
+  | [] => match l2 with [] => true | _ => false end
+  | x :: t => match remove_first eqb x l2 with Some l2' => perm_eqb eqb t l2' | None => false end
+  end.
+
+(* an observation is a tree; [true] = its top-level list is compared as a multiset *)
+Definition obs_eqb (a b : bool * val) : bool :=
+  match a, b with
+  | (false, x), (false, y) => val_eqb x y
+  | (true, VList x), (true, VList y) => perm_eqb val_eqb x y
+  | _, _ => false
+  end.
+Definition obs_list_eqb (a b : list (bool * val)) : bool := list_eqb obs_eqb a b.
